@@ -1,8 +1,317 @@
-(* C04 - placeholder while the harness is being built *)
-From Coq Require Import NArith List Bool.
-From CL Require Import Base.Sx Base.Res Base.Str Model.Merge Generated.C04Facts.
+(* C04 — l10n-merge output is complete, clean and otherwise untouched.
+   Theorems over Model/Merge.v (ContentComparer.merge and its callers); the
+   capability constants and the parsers' capabilities are the generated facts
+   of Generated/C04Facts.v.  Proofs are in Proofs/Merge*.v. *)
+From Coq Require Import NArith List Bool Arith Lia Permutation Sorted.
+From CL Require Import Base.Sx Base.Res Base.Str Model.AddRemove Model.Merge Generated.C04Facts
+  Model.Entry Model.ParseFormats
+  Proofs.MergeProofs Proofs.MergeReparse Proofs.MergeRefuted.
 Import ListNotations.
+Local Open Scope nat_scope.
 
-Example C04_example_copy :
-  merge str_eqb true caps_inc [] [] [] [] = Ok CopyL10n.
+Section C04.
+Context {K : Type} (keqb : K -> K -> bool).
+Notation skip := (@skip K).
+
+(* ---- C04_splice ------------------------------------------------------------
+   Skips that lie inside the text, are not empty, and pairwise cover the same
+   region or disjoint regions (compare() hands them over in key order, an
+   entity with two errors twice): the sort succeeds, and the copied body is
+   exactly the characters of the localization whose index lies in no skipped
+   span, each once and in order ([uncovered], Proofs/MergeProofs.v). *)
+Theorem C04_splice : forall (contents : str) (skips : list skip),
+  (forall s, In s skips -> placed (length contents) s) ->
+  (forall s t, In s skips -> In t skips -> apart s t) ->
+  exists sorted, sort_skips skips = Ok sorted /\ Permutation skips sorted /\
+    remove_spans contents (map sk_span sorted) = uncovered contents (map nsp skips).
+Proof. exact splice_any_order. Qed.
+
+(* what [uncovered] means, position by position: a character of the result is
+   a character of the text at an index outside every span *)
+Theorem C04_splice_nothing_else : forall (contents : str) spans c,
+  In c (uncovered contents spans) ->
+  exists k, nth_error contents k = Some c /\
+            forall s, In s spans -> ~ (fst s <= k < snd s).
+Proof.
+  intros contents spans c H. destruct (keep_from_In _ _ _ _ H) as [k [Hk Hc]].
+  exists k. split; [exact Hk|]. now apply covered_false_iff.
+Qed.
+
+(* ... and as many characters are kept as there are indices outside the spans *)
+Theorem C04_splice_every_kept_once : forall (contents : str) spans,
+  length (uncovered contents spans) =
+  length (filter (fun j => negb (covered j spans)) (seq 0 (length contents))).
+Proof. intros. apply keep_from_length. Qed.
+
+(* the same at the level of blocks: the localization as a sequence of texts,
+   some flagged; removing the spans of the flagged ones leaves the others *)
+Theorem C04_splice_blocks : forall bs : list (bool * str),
+  remove_spans (concat (map snd bs)) (map ospan_of (block_spans 0 bs)) = concat (kept_blocks bs).
+Proof. exact remove_block_spans. Qed.
+
+(* ---- C04_identity -----------------------------------------------------------
+   Nothing to skip and nothing missing: whatever the capabilities, as long as
+   they stage anything, the localization file is copied byte for byte. *)
+Theorem C04_identity : forall caps contents refs,
+  has caps can_copy = true \/ has caps can_skip = true ->
+  merge keqb true caps contents [] [] refs = Ok CopyL10n.
+Proof. exact (merge_identity keqb). Qed.
+
+(* ---- C04_copy_only ----------------------------------------------------------
+   With CAN_COPY (.inc, unknown types, add/remove) the staged file is a byte
+   copy: of the localization if it is clean, of the reference otherwise. *)
+Theorem C04_copy_only : forall caps contents (skips : list skip) missing refs,
+  has caps can_copy = true ->
+  merge keqb true caps contents skips missing refs =
+  Ok (if nonempty skips || nonempty missing then CopyRef else CopyL10n).
+Proof. exact (merge_copy keqb). Qed.
+
+(* obsolete files and files without a parser are copied; a missing file is
+   staged from the reference iff the format has CAN_COPY or CAN_MERGE *)
+Theorem C04_whole_files : forall trigger,
+  remove_file keqb true = Ok CopyL10n /\
+  compare_unknown keqb true = Ok CopyL10n /\
+  add_file keqb true None trigger = Ok CopyRef /\
+  (forall caps, add_file keqb true (Some caps) trigger =
+                Ok (if has caps add_mask then CopyRef else NoFile)).
+Proof.
+  intro trigger. repeat split.
+  intro caps. unfold add_file. destruct (has caps add_mask); reflexivity.
+Qed.
+
+(* ---- C04_skip_only ----------------------------------------------------------
+   Without CAN_MERGE (and CAN_COPY) no reference text is appended: the action
+   does not depend on the reference entities or on the missing keys at all,
+   and is the copy around the skipped spans (or the plain copy). *)
+Theorem C04_skip_only : forall caps contents (skips : list skip) missing refs missing' refs',
+  has caps can_copy = false -> has caps can_merge = false ->
+  merge keqb true caps contents skips missing refs =
+  merge keqb true caps contents skips missing' refs'
+  /\ forall a, merge keqb true caps contents skips missing refs = Ok a ->
+       a = NoFile \/ a = DirOnly \/ (skips = [] /\ a = CopyL10n) \/
+       exists sorted, sort_skips skips = Ok sorted /\
+                      a = Write (remove_spans contents (map sk_span sorted)).
+Proof.
+  intros caps contents skips missing refs missing' refs' Hc Hm.
+  rewrite !(merge_skip_only keqb) by assumption. split; [reflexivity|].
+  intros a. destruct (N.eqb caps can_none); [intro H; inversion H; auto|].
+  destruct (negb (has caps can_skip)); [intro H; inversion H; auto|].
+  destruct skips as [|s skips]; [intro H; inversion H; auto|].
+  destruct (sort_skips (s :: skips)) as [sorted|] eqn:E; simpl; [|discriminate].
+  intro H. inversion H. right. right. right. exists sorted. auto.
+Qed.
+
+(* ---- C04_appended -----------------------------------------------------------
+   With CAN_SKIP and CAN_MERGE: the output is the spliced localization, then
+   "\n", then the reference texts of the missing keys and of the skipped
+   non-junk entities (in span order), each ending in a newline. *)
+Theorem C04_appended : forall caps contents (skips : list skip) missing refs sorted ms ss,
+  has caps can_copy = false -> has caps can_skip = true -> has caps can_merge = true ->
+  nonempty skips || nonempty missing = true ->
+  sort_skips skips = Ok sorted ->
+  map_result (ref_all keqb refs) missing = Ok ms ->
+  map_result (fun s => ref_all keqb refs (sk_key s)) (non_junk sorted) = Ok ss ->
+  merge keqb true caps contents skips missing refs =
+  Ok (let t := [10%N] ++ concat (map ensure_newline (ms ++ ss)) in
+      if nonempty skips
+      then Write (remove_spans contents (map sk_span sorted) ++ t)
+      else CopyL10nAppend t).
+Proof. exact (merge_append keqb). Qed.
+
+Theorem C04_appended_newline_terminated : forall s : str,
+  ends_with_nl (ensure_newline s) = true /\
+  (ensure_newline s = s \/ ensure_newline s = s ++ [10%N]) /\
+  (ends_with_nl s = true <-> exists p, s = p ++ [10%N]).
+Proof.
+  intro s. split; [apply ensure_newline_ends|]. split; [|apply ends_with_nl_spec].
+  destruct (ensure_newline_cases s) as [[_ H]|[_ H]]; auto.
+Qed.
+
+(* ---- the only way merge raises ------------------------------------------- *)
+(* the sort raises exactly when it has to compare a missing span start *)
+Theorem C04_sort_total : forall skips : list skip,
+  (length skips <= 1 -> sort_skips skips = Ok skips) /\
+  (Forall has_start skips ->
+     exists sorted, sort_skips skips = Ok sorted /\ Permutation skips sorted /\
+                    StronglySorted start_le sorted) /\
+  (2 <= length skips -> (exists s, In s skips /\ sk_start s = None) ->
+     sort_skips skips = Raise TypeError).
+Proof.
+  intro skips. split; [apply sort_skips_short|]. split; [|apply sort_skips_raises].
+  intro H. destruct (sort_skips_ok skips H) as (l' & E & P & S' & _). eauto.
+Qed.
+
+Theorem C04_raises_only : forall caps contents (skips : list skip) missing refs t,
+  merge keqb true caps contents skips missing refs = Raise t ->
+  has caps can_copy = false /\ has caps can_skip = true /\
+  (sort_skips skips = Raise t \/
+   exists sorted, sort_skips skips = Ok sorted /\ has caps can_merge = true /\
+                  trailing keqb refs missing sorted = Raise t).
+Proof. exact (merge_raises_only_by_sort_or_lookup keqb). Qed.
+
+(* ---- C04_reparse_partial ------------------------------------------------------
+   PARTIAL: the re-parse clause ("the staged file compares again with no junk,
+   nothing missing") is proved only relative to a block-compositional parser:
+   [parse_blocks] (the per-format block theorem of C02, not proved here, and
+   false of .properties for a kept text ending in a backslash, see
+   C04_unrestricted_refuted) is a premise.  The localization is a list of
+   blocks, the flagged ones being the skips; the staged text then parses as
+   the unflagged blocks, a newline, and the newline-terminated reference texts
+   of the missing keys and of the flagged non-junk blocks.  The harness checks
+   the clause on the implementation by comparing the staged file again. *)
+Theorem C04_reparse_partial :
+  forall (E : Type) (parse entries : str -> list E) (legal : list str -> Prop),
+  (forall ts, legal ts -> parse (concat ts) = flat_map entries ts) ->
+  forall caps (bs : list (blk (K := K))) missing refs ms ss,
+  has caps can_copy = false -> has caps can_skip = true -> has caps can_merge = true ->
+  existsb flagged bs = true ->
+  map_result (ref_all keqb refs) missing = Ok ms ->
+  map_result (fun s => ref_all keqb refs (sk_key s)) (non_junk (block_skips 0 bs)) = Ok ss ->
+  legal (kept_texts bs ++ [[10%N]] ++ map ensure_newline (ms ++ ss)) ->
+  exists t, merge keqb true caps (l10n_text bs) (block_skips 0 bs) missing refs = Ok (Write t) /\
+    parse t = flat_map entries (kept_texts bs) ++ entries [10%N] ++
+              flat_map entries (map ensure_newline (ms ++ ss)).
+Proof. intros E parse entries legal H. exact (reparse_blocks keqb parse entries legal H). Qed.
+
+End C04.
+
+(* ---- C04_pure -----------------------------------------------------------------
+   The action is the only effect, and it touches merge_file only: applied to
+   any file system, every other path (the reference and the localization among
+   them) keeps its content; what ends up at merge_file is [staged]. *)
+Theorem C04_pure :
+  forall (P B : Type) (peqb : P -> P -> bool) (enc : str -> list B),
+  (forall p q, peqb p q = true -> p = q) ->
+  forall merge_file l10n_file ref_file a (f : fs (P := P) (B := B)) p,
+  p <> merge_file ->
+  apply_action peqb enc merge_file l10n_file ref_file a f p = f p.
+Proof. intros P B peqb enc H. exact (apply_action_elsewhere peqb enc H). Qed.
+
+Theorem C04_pure_shape : forall (B : Type) (enc : str -> list B) l10n_bytes ref_bytes a,
+  match a with
+  | NoFile | DirOnly => staged enc l10n_bytes ref_bytes a = None
+  | CopyL10n => staged enc l10n_bytes ref_bytes a = Some l10n_bytes
+  | CopyRef => staged enc l10n_bytes ref_bytes a = Some ref_bytes
+  | Write t => staged enc l10n_bytes ref_bytes a = Some (enc t)
+  | CopyL10nAppend t => staged enc l10n_bytes ref_bytes a = Some (l10n_bytes ++ enc t)
+  end.
+Proof. intros B enc l r a. destruct a; reflexivity. Qed.
+
+(* ---- the formats, from the generated capability table ------------------------ *)
+Theorem C04_format_classes :
+  (* mergeable: skip and append *)
+  Forall (fun c => has c can_copy = false /\ has c can_skip = true /\ has c can_merge = true)
+         [caps_properties; caps_dtd; caps_ini; caps_default] /\
+  (* skip-only *)
+  Forall (fun c => has c can_copy = false /\ has c can_skip = true /\ has c can_merge = false)
+         [caps_ftl; caps_po; caps_android] /\
+  (* copy-only *)
+  has caps_inc can_copy = true /\ has caps_file_copy can_copy = true /\
+  (* add(): which formats tolerate the reference as a localization *)
+  map (fun c => has c add_mask)
+      [caps_properties; caps_dtd; caps_ini; caps_inc; caps_ftl; caps_po; caps_android]
+  = [true; true; true; true; false; false; false] /\
+  (* the table has exactly these seven parsers *)
+  map snd parser_caps =
+  [caps_android; caps_dtd; caps_properties; caps_ini; caps_inc; caps_ftl; caps_po].
+Proof. vm_compute. repeat constructor. Qed.
+
+(* ---- findings ------------------------------------------------------------------ *)
+(* D3: a .properties localization, clean and without duplicates, for which the
+   staged text parses without the key b although b was missing and its
+   reference text was appended: the appended "\n" continues the last line *)
+Theorem C04_unrestricted_refuted :
+  exists (reference l10n staged : str),
+    (do es <- walk_properties reference; Ok (has_junk es, entity_keys reference es))
+      = Ok (false, [key_a; key_b; key_c]) /\
+    (do es <- walk_properties l10n; Ok (has_junk es, entity_keys l10n es)) = Ok (false, [key_a]) /\
+    (do a <- merge str_eqb true caps_properties l10n [] [key_b; key_c] d3_refs;
+     match a with CopyL10nAppend t => Ok (l10n ++ t) | _ => Raise AssertionError end) = Ok staged /\
+    parsed_keys staged = Ok [key_a; key_c].
+Proof.
+  exists d3_reference, d3_l10n, [97; 61; 120; 92; 10; 98; 61; 50; 10; 99; 61; 51; 10]%N.
+  vm_compute. repeat split; reflexivity.
+Qed.
+
+(* D4: Android entities have span (None, None): with one of them in skips the
+   staged text is the localization twice, whatever the localization is; Android
+   junk has span (0, 0) and stays in the staged text *)
+Theorem C04_android_refuted :
+  (forall (contents k : str) j missing refs,
+     merge str_eqb true caps_android contents [mkskip (None, None) k j] missing refs
+     = Ok (Write (contents ++ contents))) /\
+  (forall (contents k : str) missing refs,
+     merge str_eqb true caps_android contents [mkskip (Some 0, Some 0) k true] missing refs
+     = Ok (Write contents)).
+Proof. split; [exact android_one_skip_twice|exact android_junk_unchanged]. Qed.
+
+(* D9: with two or more skips of which one has no span start the sort, and
+   with it merge and compare(), raises TypeError *)
+Theorem C04_android_two_skips_refuted :
+  forall (contents : str) (skips : list (skip (K := str))) missing refs,
+  2 <= length skips -> (exists s, In s skips /\ sk_start s = None) ->
+  merge str_eqb true caps_android contents skips missing refs = Raise TypeError.
+Proof. exact android_two_skips_raise. Qed.
+
+(* an entity with two error-level check results is listed twice in skips and
+   its reference text is appended twice (a duplicate key in the staged file) *)
+Theorem C04_twice_refuted :
+  exists contents (sk : skip (K := str)) refs w,
+    ref_all str_eqb refs (sk_key sk) = Ok w /\
+    merge str_eqb true caps_dtd contents [sk; sk] [] refs
+    = Ok (Write ([10%N] ++ [10%N] ++ ensure_newline w ++ ensure_newline w)).
+Proof.
+  exists dtd_l10n, (mkskip (Some 0, Some 16) key_w false), [(key_w, dtd_ref_w)], dtd_ref_w.
+  vm_compute. split; reflexivity.
+Qed.
+
+(* ---- the premises hold of concrete values ------------------------------------ *)
+(* a = x ; junk ; b = y   with the junk line and the entity b skipped (given out of
+   order): placed, apart, and the body is "a=x\n" *)
+Example C04_splice_example :
+  let contents : str := [97;61;120;10; 106;117;110;107;10; 98;61;121;10]%N in
+  let skips := [mkskip (Some 9, Some 12) [98%N] false; mkskip (Some 4, Some 9) [106%N] true] in
+  (forall s, In s skips -> placed (length contents) s) /\
+  (forall s t, In s skips -> In t skips -> apart s t) /\
+  (do sorted <- sort_skips skips; Ok (remove_spans contents (map sk_span sorted)))
+    = Ok [97;61;120;10; 10]%N /\
+  uncovered contents (map nsp skips) = [97;61;120;10; 10]%N.
+Proof.
+  cbv zeta. split.
+  { intros s Hs. simpl in Hs. destruct Hs as [<-|[<-|[]]].
+    - exists 9, 12. simpl. repeat split; lia.
+    - exists 4, 9. simpl. repeat split; lia. }
+  split.
+  { intros s t Hs Ht. simpl in Hs, Ht. unfold apart.
+    destruct Hs as [<-|[<-|[]]]; destruct Ht as [<-|[<-|[]]]; simpl; auto;
+      solve [right; left; lia | right; right; lia]. }
+  vm_compute. split; reflexivity.
+Qed.
+
+Example C04_appended_example :
+  let contents : str := [97;61;120;10; 98;61;37;100;10]%N in       (* a=x \n b=%d \n *)
+  let refs := [([97%N], [97;61;49]%N); ([98%N], [98;61;37;83]%N); ([99%N], [35;99;10;99;61;51;10]%N)] in
+  merge str_eqb true caps_properties contents [mkskip (Some 4, Some 8) [98%N] false] [[99%N]] refs
+  = Ok (Write ([97;61;120;10; 10] ++ [10] ++ [35;99;10;99;61;51;10] ++ [98;61;37;83;10])%N).
 Proof. vm_compute. reflexivity. Qed.
+
+Example C04_reparse_premises_example :
+  (* a parser that reads a text line by line is block-compositional on
+     newline-terminated blocks; here: blocks = lines, entries = the line itself *)
+  let bs : list (blk (K := str)) :=
+    [(None, [97;61;120;10]%N); (Some ([98%N], false), [98;61;37;100;10]%N)] in
+  existsb flagged bs = true /\
+  merge str_eqb true caps_properties (l10n_text bs) (block_skips 0 bs) [] [([98%N], [98;61;37;83]%N)]
+  = Ok (Write (concat (kept_texts bs ++ [[10%N]] ++ map ensure_newline [[98;61;37;83]%N]))).
+Proof. vm_compute. split; reflexivity. Qed.
+
+Example C04_skip_only_example :
+  merge str_eqb true caps_ftl [97;10;98;10]%N [mkskip (Some 2, Some 3) [98%N] false] [[99%N]] []
+  = Ok (Write [97;10;10]%N).
+Proof. vm_compute. reflexivity. Qed.
+
+Example C04_copy_example :
+  merge str_eqb true caps_inc [] [] [] [] = Ok CopyL10n /\
+  merge str_eqb true caps_inc [] [] [[97%N]] [] = Ok CopyRef /\
+  merge str_eqb false caps_inc [] [] [[97%N]] [] = Ok NoFile.
+Proof. vm_compute. repeat split; reflexivity. Qed.
